@@ -88,9 +88,13 @@ impl MemResizable for HeapMem {
                         // mul carefully, to prevent overflow.
                         let new_mem_size = self.element_layout.size()
                             .checked_mul(new_size).unwrap();
-                        let new_mem_layout = Layout::from_size_align_unchecked(
+                        // checked, because size must not overflow isize (when rounded up to align).
+                        let new_mem_layout = match Layout::from_size_align(
                             new_mem_size, self.element_layout.align()
-                        );
+                        ){
+                            Ok(layout) => layout,
+                            Err(_) => panic!("capacity overflow")
+                        };
 
                         if self.size == 0 {
                             // allocate
